@@ -4,6 +4,7 @@ import (
 	"bytes"
 	"encoding/binary"
 	"fmt"
+	"math"
 	"slices"
 	"unsafe"
 )
@@ -123,11 +124,11 @@ func reposMapDecode(b []byte) (ReposMap, error) {
 	}
 
 	// Length
-	l := r.uvarint()
+	l := r.count()
 	m := make(map[uint32]MinimalRepoListEntry, l)
 
 	// Pre-allocate slice for all branches
-	allBranchesLen := r.uvarint()
+	allBranchesLen := r.count()
 	allBranches := make([]RepositoryBranch, 0, allBranchesLen)
 
 	for range l {
@@ -137,7 +138,7 @@ func reposMapDecode(b []byte) (ReposMap, error) {
 		if readIndexTime {
 			indexTimeUnix = int64(r.uvarint())
 		}
-		lb := r.uvarint()
+		lb := r.count()
 		for range lb {
 			allBranches = append(allBranches, RepositoryBranch{
 				Name:    r.str(),
@@ -163,13 +164,28 @@ type binaryReader struct {
 
 func (b *binaryReader) uvarint() int {
 	x, n := binary.Uvarint(b.b)
-	if n < 0 {
+	// n == 0 is a truncated varint, n < 0 an overlong one. A value that does
+	// not fit in an int can not be a length or count either.
+	if n <= 0 || x > math.MaxInt {
 		b.b = nil
 		b.err = fmt.Errorf("malformed %s", b.typ)
 		return 0
 	}
 	b.b = b.b[n:]
 	return int(x)
+}
+
+// count reads the number of items that follow. Every item takes at least one
+// byte, so a larger count is malformed; it is never used as an allocation
+// size or loop bound unchecked.
+func (b *binaryReader) count() int {
+	l := b.uvarint()
+	if l > len(b.b) {
+		b.b = nil
+		b.err = fmt.Errorf("malformed %s", b.typ)
+		return 0
+	}
+	return l
 }
 
 func (b *binaryReader) str() string {
